@@ -33,6 +33,13 @@ func VerifHashEntries() {
 			vReach("entry")
 		}
 	}
+	// every declared constant maps to itself and has its documented text
+	decl := []Hash{Iframe, Math, Plaintext, Script, Style, Svg, Textarea, Title, Xml, Xmp}
+	text := []string{"iframe", "math", "plaintext", "script", "style", "svg", "textarea", "title", "xml", "xmp"}
+	for i, c := range decl {
+		vAssert(string(c.Bytes()) == text[i], "constant-text")
+		vAssert(ToHash([]byte(text[i])) == c, "constant-does-not-map-to-itself")
+	}
 	h := Hash(vUint32("h"))
 	b := h.Bytes()
 	vAssert(len(b) <= len(_Hash_text), "bytes-length")
